@@ -1,9 +1,11 @@
 (* Eng/Model.v — C20: an engine (engine.KVEngine + one WriteBatch) driven by a script, as the
    harness harness/cmd/engine drives the real engines: batch operations, commit / clear / new batch,
    point reads, the two range-iterator constructors of engine/iterator.go, raw cursor scripts.
-   [bounded] tells whether the engine clamps its raw iterators to the bounds (pebble, rocksdb) or
-   not (mem). No proofs in this file. *)
-From ZV Require Export Common.Bytes Eng.SortedMap Eng.Batch Eng.Cursor Eng.RangeIter.
+   The engine kind tells which cursor the engine provides: KBounded = an ideal cursor clamped to the
+   iterator bounds (pebble, rocksdb), KPlain = an ideal cursor over the whole store (mem with the btree or
+   skiplist index), KRadix = the radix iterator of Eng/RadixIter.v over the whole store (mem, the default).
+   No proofs in this file. *)
+From ZV Require Export Common.Bytes Eng.SortedMap Eng.Batch Eng.Cursor Eng.RangeIter Eng.RadixIter.
 Open Scope N_scope.
 
 Inductive step :=
@@ -24,13 +26,17 @@ Inductive result :=
 | RKVs (l : option (list kv))          (* None = the model faulted (out of fuel) *)
 | RCursor (l : list cres).
 
+Inductive ekind := KRadix | KPlain | KBounded.
+Definition kbounded (k : ekind) : bool := match k with KBounded => true | _ => false end.
+
 Definition strip_kvs (vt : N) (l : option (list kv)) : option (list kv) :=
   match l with
   | Some l => Some (map (fun e => (fst e, strip_ts vt (snd e))) l)
   | None => None
   end.
 
-Definition run_step (bounded : bool) (d : db) (s : step) : db * result :=
+Definition run_step (k : ekind) (d : db) (s : step) : db * result :=
+  let bounded := kbounded k in
   match s with
   | SPut k v => (db_add d (BPut k v), RNone)
   | SDel k => (db_add d (BDel k), RNone)
@@ -46,11 +52,14 @@ Definition run_step (bounded : bool) (d : db) (s : step) : db * result :=
   | SIter o vt => (d, RKVs (strip_kvs vt (db_range_limit false bounded (committed d) o)))
   | SRangeIter o vt => (d, RKVs (strip_kvs vt (db_range false bounded (committed d) o)))
   | SCursor mn mx tp ops =>
-      (d, RCursor (cops_run false (get_iterator bounded mn mx tp (committed d)) ops))
+      match k with
+      | KRadix => (d, RCursor (rops_run false (r_new (committed d)) ops))
+      | _ => (d, RCursor (cops_run false (get_iterator bounded mn mx tp (committed d)) ops))
+      end
   end.
 
-Fixpoint run_script (bounded : bool) (d : db) (ss : list step) : list result :=
+Fixpoint run_script (k : ekind) (d : db) (ss : list step) : list result :=
   match ss with
   | [] => []
-  | s :: r => let '(d', x) := run_step bounded d s in x :: run_script bounded d' r
+  | s :: r => let '(d', x) := run_step k d s in x :: run_script k d' r
   end.
